@@ -281,6 +281,53 @@ def wiring(ctx: Any) -> List[Ob]:
         except lf.NotLinear:
             pass
     obs.append(ob(R, rdy, ifs[0].test if ifs else 'if len(queue) > 1 and queue[0].send_before > now', 'while more than one group is queued the flush waits until the first group must go (maximum aggregation), never beyond its send-before deadline', ok_h))
+    # liveness of the queue timer: a non-empty queue always has a flush pending.  async_add arms only when the queue
+    # was empty (C12.WINDOW), so the flush itself must leave either an empty queue or an armed timer on every path.
+    takes = [c for c in walk_local_ordered(rdy.node) if isinstance(c, ast.Call) and call_name(c) == 'popleft' and isinstance(c.func, ast.Attribute) and self_attr(c.func.value, me)]
+    qattr = self_attr(takes[0].func.value, me) if takes else 'queue'
+
+    def is_q(x: ast.AST) -> bool:
+        return self_attr(x, me) == qattr or (isinstance(x, ast.Call) and norm(x.func) == 'len' and len(x.args) == 1 and self_attr(x.args[0], me) == qattr)
+
+    def empty_after(t: ast.AST, taken: Any) -> bool:
+        """Does leaving test `t` by the `taken` edge prove the queue empty?"""
+        if isinstance(t, ast.UnaryOp) and isinstance(t.op, ast.Not):
+            return empty_after(t.operand, not taken)
+        if is_q(t):
+            return taken is False
+        if isinstance(t, ast.Compare) and len(t.ops) == 1 and is_q(t.left) and isinstance(t.left, ast.Call):
+            ok, k = prog.try_fold(rdy.module, t.comparators[0])
+            if ok and isinstance(k, int):
+                op = type(t.ops[0])
+                if (op, k) in ((ast.Gt, 0), (ast.NotEq, 0), (ast.GtE, 1)):
+                    return taken is False
+                if (op, k) in ((ast.Eq, 0), (ast.Lt, 1), (ast.LtE, 0)):
+                    return taken is True
+        if isinstance(t, ast.BoolOp) and isinstance(t.op, ast.Or) and taken is False:
+            return any(empty_after(v, False) for v in t.values)  # every operand was false
+        if isinstance(t, ast.BoolOp) and isinstance(t.op, ast.And) and taken is True:
+            return any(empty_after(v, True) for v in t.values)  # every operand was true
+        return False
+
+    def arms_self(n: Any) -> bool:
+        return any(call_name(c) in ('call_at', 'call_later') and any(self_attr(a, me) == rdy.name for a in c.args) for c in n.calls())
+
+    bad_paths = []
+    n_paths = 0
+    for path in cfg.paths(loop_bound=1):
+        if path[-1][0] is cfg.raise_exit:
+            continue
+        n_paths += 1
+        armed = any(arms_self(n) for n, _ in path)
+        empty = False
+        for n, lab in path:
+            if n.kind in ('test', 'loop_test') and n.ast is not None and empty_after(n.ast, lab):
+                empty = True
+            if any(call_name(c) in ('append', 'appendleft', 'extend', 'insert') and isinstance(c.func, ast.Attribute) and self_attr(c.func.value, me) == qattr for c in n.calls()):
+                empty = False
+        if not (armed or empty):
+            bad_paths.append(' -> '.join(f'{n.line}' for n, _ in path if n.line))
+    obs.append(ob(R, rdy, f'{n_paths} path(s) through the flush', 'every path leaves the queue empty or the flush timer armed (a queued group is never stranded without a timer)', n_paths > 0 and not bad_paths, 'path through lines ' + '; '.join(bad_paths[:3])))
     rm = prog.func(MQ + '._remove_answers_from_queue')
     pops = [c for c in walk_local_ordered(rm.node) if isinstance(c, ast.Call) and call_name(c) == 'pop' and len(c.args) == 2]
     obs.append(ob(R, rm, pops[0] if pops else 'pending.answers.pop(record, None)', 'removal from later groups tolerates absent records and covers every queued group', len(pops) == 1 and sum(1 for n in walk_local_ordered(rm.node) if isinstance(n, ast.For)) == 2))
